@@ -441,6 +441,19 @@ def correspondence(ctx, model_ok: bool):
             if back != n:
                 viol(f"astropy_to_nsec of the {variant} form of nsec {n} = {back}", f"scale:{variant}:{n}",
                      {"kind": "scale", "variant": variant, "n": n, "got": back})
+        # the same instant expressed on the relativistic scales (TDB, TCG, TCB): the conversion goes through astropy's own
+        # transformation back to TAI, whose double-double arithmetic is good to well under a microsecond — a scale that is
+        # *not* converted is off by a millisecond (TDB), a second (TCG) or tens of seconds (TCB)
+        for variant in ("tdb", "tcg", "tcb"):
+            try:
+                back = conv.astropy_to_nsec(getattr(t, variant))
+            except Exception as e:  # noqa
+                back = f"{type(e).__name__}"
+            n_conv += 1
+            if not isinstance(back, int) or abs(back - n) > 1000:
+                viol(f"astropy_to_nsec of the {variant.upper()} form of nsec {n} = {back} ({(back - n) if isinstance(back, int) else '?'} ns off)",
+                     f"scale:{variant}:{n}", {"kind": "scale", "variant": variant, "n": n, "got": back})
+                break
     for txt, want in [("1960-01-01T00:00:00", MIN), ("2150-01-01T00:00:00", MAX), ("1970-01-01T00:00:00", MIN),
                       ("2100-01-01T00:00:00", MAX)]:
         got = conv.astropy_to_nsec(astropy.time.Time(txt, format="isot", scale="tai"))
